@@ -91,6 +91,10 @@ func CloneTo[T any](maybeSelf MaybeDef[T], dest T) MaybeDef[T] {
 		y := reflect.New(starX.Type())
 		starY := y.Elem()
 		starY.Set(starX)
+		if y.Type() != x.Type() {
+			// A named pointer type(e.g. type Ref *int): reflect.New() gives the unnamed *int, the clone keeps the type
+			y = y.Convert(x.Type())
+		}
 		destVal := reflect.ValueOf(dest)
 		if destVal.Kind() != reflect.Ptr || destVal.IsNil() {
 			// No destination given(e.g. Clone()): the freshly allocated copy is the destination
